@@ -84,7 +84,7 @@ type c16Tx struct {
 	Amt    uint64   `json:"amt"`
 }
 
-const c16ScriptKinds = 26
+var c16ScriptKinds = 14 + len(c16ExtraScripts())
 
 func c16OutScript(kind int) []byte {
 	switch kind {
@@ -113,12 +113,31 @@ func c16OutScript(kind int) []byte {
 	case 13:
 		return []byte{0x6a, 0x03, 0x61, 0x62, 0x63, 0x51}
 	}
-	// scripts that end inside a push: every partial length field and short payloads
-	if trunc := [][]byte{{0x4d}, {0x4d, 0x01}, {0x4e}, {0x4e, 0x01}, {0x4e, 0x01, 0x02}, {0x4e, 0x01, 0x02, 0x03}, {0x6a, 0x4e, 0x01, 0x02, 0x03},
-		{0x05, 0x01}, {0x4c, 0x05, 0x01}, {0x4d, 0x05, 0x00, 0x01}, {0x4e, 0x05, 0x00, 0x00, 0x00, 0x01}, {0x00, 0x6a, 0x4d, 0x01}}; kind-14 < len(trunc) {
-		return trunc[kind-14]
+	if ex := c16ExtraScripts(); kind-14 < len(ex) {
+		return ex[kind-14]
 	}
 	return fill(300, 0x99)
+}
+
+var c16Extra [][]byte
+
+// c16ExtraScripts: scripts that end inside a push (every partial length field and short
+// payloads), and the inscription template with each of its tokens replaced by an empty push.
+func c16ExtraScripts() [][]byte {
+	if c16Extra != nil {
+		return c16Extra
+	}
+	out := [][]byte{{0x4d}, {0x4d, 0x01}, {0x4e}, {0x4e, 0x01}, {0x4e, 0x01, 0x02}, {0x4e, 0x01, 0x02, 0x03}, {0x6a, 0x4e, 0x01, 0x02, 0x03},
+		{0x05, 0x01}, {0x4c, 0x05, 0x01}, {0x4d, 0x05, 0x00, 0x01}, {0x4e, 0x05, 0x00, 0x00, 0x00, 0x01}, {0x00, 0x6a, 0x4d, 0x01}}
+	t := c14Templates()["inscription"]
+	toks, _ := refTokenize(t)
+	for _, tk := range toks {
+		for _, rp := range [][]byte{{0x4c, 0x00}, {0x4e, 0, 0, 0, 0}} {
+			out = append(out, bytesJoin(t[:tk.Off], rp, t[tk.End:]))
+		}
+	}
+	c16Extra = out
+	return out
 }
 
 func c16Build(c c16Tx) *bt.Tx {
@@ -341,7 +360,7 @@ func c16Boundary() []uint64 {
 
 func init() {
 	p := register(&Prop{ID: "C16", Level: "exploration",
-		Rule: "exhaustive: (amounts) every amount 0..2,000,000 (quick) / 0..100,000,000 (thorough) and ~8,300 decimal-boundary amounts up to 21e14 through Output and UTXO in both JSON dialects (marshal -> unmarshal -> equal satoshis/script/txid/vout); (transactions) product of shapes nIn 0..3 x nOut 0..3 x signing state {unsigned(nil scripts), first input only, all, empty scripts} x 26 output-script kinds (P2PKH, empty, data with pushes of 1..5 bytes, multisig, inscription, odd pushes, 300 bytes, and 13 scripts that end inside a push: every partial PUSHDATA1/2/4 length field and short payloads) x boundary amounts x version/locktime values, each marshalled as Tx (library and node dialect), Txs list (node), []*Tx, per-output Output (both), UTXOs list (node) and []*UTXO, the node-dialect lists also decoded into a list variable that was decoded into before (shorter, longer and empty lists): marshal must return (value or error, no panic) and the unmarshalled object must have identical Bytes()/TxID/scripts/satoshis. distinct_nontrivial = distinct amounts + distinct transaction serialisations round-tripped",
+		Rule: "exhaustive: (amounts) every amount 0..2,000,000 (quick) / 0..100,000,000 (thorough) and ~8,300 decimal-boundary amounts up to 21e14 through Output and UTXO in both JSON dialects (marshal -> unmarshal -> equal satoshis/script/txid/vout); (transactions) product of shapes nIn 0..3 x nOut 0..3 x signing state {unsigned(nil scripts), first input only, all, empty scripts} x 52 output-script kinds (P2PKH, empty, data with pushes of 1..5 bytes, multisig, inscription, odd pushes, 300 bytes, 12 scripts that end inside a push: every partial PUSHDATA1/2/4 length field and short payloads, and the inscription template with each token replaced by an empty PUSHDATA1 / PUSHDATA4 push) x boundary amounts x version/locktime values, each marshalled as Tx (library and node dialect), Txs list (node), []*Tx, per-output Output (both), UTXOs list (node) and []*UTXO, the node-dialect lists also decoded into a list variable that was decoded into before (shorter, longer and empty lists): marshal must return (value or error, no panic) and the unmarshalled object must have identical Bytes()/TxID/scripts/satoshis. distinct_nontrivial = distinct amounts + distinct transaction serialisations round-tripped",
 	})
 	sA := NewSpace(p, "amounts", c16AmtCheck)
 	sT := NewSpace(p, "transactions", c16TxCheck)
